@@ -97,6 +97,12 @@ func Build(j Job) (*Built, error) {
 	root := core.Root()
 	repo := core.RepoDir()
 	dir := filepath.Join(root, ".work", j.Check)
+	if mf := os.Getenv("VERIF_MODFILE"); mf != "" {
+		// VERIF_REPO run (see run.sh): its own work directory next to the alternate go.mod, so that
+		// runs against different copies of goa (several seeded changes checked at the same time)
+		// do not overwrite each other's overlay and worker
+		dir = filepath.Join(filepath.Dir(mf), j.Check)
+	}
 	if err := os.MkdirAll(dir, 0o755); err != nil {
 		return nil, err
 	}
@@ -262,6 +268,12 @@ type Options struct {
 	// of scenarios of the auxiliary pass (0 = all selected quick scenarios).
 	AuxCopies int
 	AuxMax    int
+	// AuxKeep, when set, restricts the auxiliary pass to the scenarios it accepts.
+	AuxKeep func(scenario string) bool
+	// RowGroup, when set, maps a scenario name to the name of a group ("" = none): the scenarios
+	// of a group are reported as ONE aggregated row under the note "scenario_groups" (menus of
+	// thousands of small scenarios) instead of one row each under "scenarios".
+	RowGroup func(scenario string) string
 	// Only restricts the run to scenarios whose name contains this text (development aid,
 	// also settable through VERIF_SCHED_ONLY); a restricted run is reported as incomplete.
 	Only string
@@ -526,6 +538,26 @@ func (b *Built) Feed(c *core.Ctx, o Options, ms []*Merged) {
 		Findings       int     `json:"findings"`
 		WallMS         int64   `json:"wall_ms"`
 	}
+	type group struct {
+		Group          string  `json:"group"`
+		Scenarios      int     `json:"scenarios"`
+		Threads        []int   `json:"threads_min_max"`
+		Modes          string  `json:"modes"`
+		Bound          int     `json:"bound_max"`
+		Schedules      int64   `json:"schedules"`
+		PerBound       []int64 `json:"schedules_per_bound"`
+		Executions     int64   `json:"executions"`
+		MaxDepth       int     `json:"max_depth"`
+		MaxPreemptions int     `json:"max_preemptions"`
+		Traces         int64   `json:"distinct_traces"`
+		Nontrivial     int     `json:"scenarios_with_more_than_one_trace"`
+		Outcomes       int64   `json:"distinct_outcomes"`
+		Contended      int64   `json:"contended_points"`
+		Findings       int     `json:"findings"`
+		WallMS         int64   `json:"wall_ms_sum"`
+	}
+	groups := map[string]*group{}
+	var groupOrder []string
 	var rows []row
 	var total int64
 	// cross-check: a finding of the preemption-bounded search must also be a finding of the
@@ -581,9 +613,55 @@ func (b *Built) Feed(c *core.Ctx, o Options, ms []*Merged) {
 				bc = "incomplete"
 			}
 		}
-		rows = append(rows, row{Scenario: name, Threads: m.Threads, Mode: m.Mode, Bound: m.Plan.Bound, BoundCompleted: bc, Schedules: m.Schedules,
-			PerBound: m.PerBound, Executions: m.Executions, MaxDepth: m.MaxDepth, MaxPreemptions: m.MaxPreemptions, Traces: m.DistinctTraces,
-			Outcomes: len(m.Outcomes), Contended: m.Contended, Findings: len(m.Findings), WallMS: m.WallMS})
+		gname := ""
+		if o.RowGroup != nil {
+			gname = o.RowGroup(m.Scenario)
+		}
+		if gname != "" && m.Exhaustive {
+			gname = o.Prefix + gname + " [" + m.Mode + "]"
+			g := groups[gname]
+			if g == nil {
+				g = &group{Group: gname, Threads: []int{m.Threads, m.Threads}, Modes: m.Mode}
+				groups[gname] = g
+				groupOrder = append(groupOrder, gname)
+			}
+			g.Scenarios++
+			if m.Threads < g.Threads[0] {
+				g.Threads[0] = m.Threads
+			}
+			if m.Threads > g.Threads[1] {
+				g.Threads[1] = m.Threads
+			}
+			if m.Plan.Bound > g.Bound {
+				g.Bound = m.Plan.Bound
+			}
+			g.Schedules += m.Schedules
+			for i, n := range m.PerBound {
+				for len(g.PerBound) <= i {
+					g.PerBound = append(g.PerBound, 0)
+				}
+				g.PerBound[i] += n
+			}
+			g.Executions += m.Executions
+			if m.MaxDepth > g.MaxDepth {
+				g.MaxDepth = m.MaxDepth
+			}
+			if m.MaxPreemptions > g.MaxPreemptions {
+				g.MaxPreemptions = m.MaxPreemptions
+			}
+			g.Traces += int64(m.DistinctTraces)
+			if nontrivial {
+				g.Nontrivial++
+			}
+			g.Outcomes += int64(len(m.Outcomes))
+			g.Contended += m.Contended
+			g.Findings += len(m.Findings)
+			g.WallMS += m.WallMS
+		} else {
+			rows = append(rows, row{Scenario: name, Threads: m.Threads, Mode: m.Mode, Bound: m.Plan.Bound, BoundCompleted: bc, Schedules: m.Schedules,
+				PerBound: m.PerBound, Executions: m.Executions, MaxDepth: m.MaxDepth, MaxPreemptions: m.MaxPreemptions, Traces: m.DistinctTraces,
+				Outcomes: len(m.Outcomes), Contended: m.Contended, Findings: len(m.Findings), WallMS: m.WallMS})
+		}
 		c.Sample(map[string]any{"scenario": name, "doc": m.Doc, "labels": m.Labels, "sequential_reference": m.Solo, "mode": m.Mode, "schedules": m.Schedules})
 		for _, f := range m.Findings {
 			f := f
@@ -598,6 +676,13 @@ func (b *Built) Feed(c *core.Ctx, o Options, ms []*Merged) {
 		key = "scenarios_" + strings.Trim(o.Prefix, ":/ ")
 	}
 	c.Note(key, rows)
+	if len(groupOrder) > 0 {
+		var gs []*group
+		for _, n := range groupOrder {
+			gs = append(gs, groups[n])
+		}
+		c.Note(strings.Replace(key, "scenarios", "scenario_groups", 1), gs)
+	}
 	c.AddNote("schedules_explored", total)
 }
 
@@ -671,7 +756,7 @@ func (b *Built) AuxRace(c *core.Ctx, o Options, key string, hbSignatures []strin
 	}
 	var names []string
 	for _, in := range infos {
-		if o.want(in.Family) && !in.ThoroughOnly {
+		if o.want(in.Family) && !in.ThoroughOnly && (o.AuxKeep == nil || o.AuxKeep(in.Name)) {
 			names = append(names, in.Name)
 		}
 	}
